@@ -42,6 +42,11 @@ CHECKS = {
    text="A small store (2-10 transactions; plain/embedded values, 1-3 value logs, tiny files so that records span chunks, tx metadata, deletes/expirations) is built inside the simulation and closed; then 1-3 bit flips at seeded offsets inside the data region of the tx-log and value-log files are applied to a copy (at rest), or bits are flipped in the bytes returned by file reads while the store is open (live, through the read hook), with and without forcing an index rebuild. Every integrity-checked read is then run under a panic catcher: Open, ReadTx, ReadValue, ReadTxHeader, ExportTx (compared logically with the pristine export), TxReader scan, DualProof, Get+Resolve after indexing. Oracle: error or exactly the committed content; never other data, never a panic, bounded (simulated) time. Sampling of the flip space (6 cases per store in quick, 20 in thorough), not exhaustive.",
    note="Compressed value logs are excluded (a corrupted compressed length makes the reader allocate up to 4 GiB; observed as a hang while building C03, recorded in DESIGN.md). Header/metadata bytes of the files are not flipped (they do not hold committed transactions).",
    technique="deterministic simulation: seeded bit-flip fault enumeration (at rest and at read time) vs pristine ledger"),
+ "C14": dict(
+   level="exploration", design="DESIGN.md §7 C14",
+   text="Simulated store with 1-3 value logs and 256-1024 byte chunks; concurrent committers (empty values at a raised rate, small MaxConcurrency, committers starved inside their commit and the opt-in yield while a value log is held, so values land in the value logs far out of id order); then 1-2 rounds of TruncateUptoTx at a seeded cut, optionally two truncations at once, racing with writers and a reader task that keeps re-reading transactions at or after the cut. Oracle after each round and after close/reopen: every transaction at or after the cut reads back value by value as acknowledged; headers, chain, BlRoot, dual proofs and the index (Get/History/scan against the model of the log) intact; every ExportTx terminates (complete and unchanged at or after the cut; complete, by digest or an explicit error before it) and a healthy export still works after a failed one; the store accepts commits afterwards. A run that cannot finish (deadlock, lost wake-up) is a liveness violation with the blocked goroutines listed.",
+   note="Store level only: the pkg/database truncator loop, SQL catalog copy and document collections after truncation are not driven by this check yet.",
+   technique="deterministic simulation: seeded schedules of committers/truncation/readers vs ledger oracle + liveness bound"),
 }
 
 NOT_APPLICABLE = [
